@@ -108,6 +108,18 @@ Section Seq.
     - cbn [run_seq] in H. eapply run_seq_finally_set; eauto.
   Qed.
 
+  Lemma preserves_conj0 run mk l : (forall sc, preserves (run sc)) -> forall i, preserves (run_conj run mk i l).
+  Proof.
+    intros Hrun. induction l as [|sc r IH]; intros i; cbn; [apply preserves_ret|].
+    apply preserves_emit. apply preserves_pbind; [apply Hrun|]. intros [|]; [apply IH | apply preserves_raise].
+  Qed.
+
+  Lemma preserves_call_new run o cd : (forall sc, preserves (run sc)) -> preserves (call_new run o cd).
+  Proof.
+    intros Hrun. unfold call_new. apply preserves_emit. apply preserves_pbind; [apply Hrun|]. intros r.
+    apply preserves_pbind; [apply preserves_conj0; exact Hrun | intros _; apply preserves_ret].
+  Qed.
+
   Theorem exec_preserves P fuel : forall t, preserves (exec P fuel t).
   Proof.
     induction fuel as [|fuel IH]; intros t.
@@ -115,11 +127,12 @@ Section Seq.
     - cbn [exec]. unfold dispatch.
       assert (forall sc, preserves (run_script (exec P fuel) sc)) as Hrun.
       { intros sc. apply preserves_script. exact IH. }
-      destruct t as [f | o m | o].
+      destruct t as [f | o m | o | o].
       + destruct (get_fn P f); [apply preserves_call_fn; exact Hrun | apply preserves_raise].
       + destruct (class_of P o) as [cd|]; [|apply preserves_raise].
         destruct (nth_error (cl_meths cd) m); [apply preserves_call_meth; exact Hrun | apply preserves_raise].
       + destruct (class_of P o) as [cd|]; [apply preserves_call_init; exact Hrun | apply preserves_raise].
+      + destruct (class_of P o) as [cd|]; [apply preserves_call_new; exact Hrun | apply preserves_raise].
   Qed.
 
   (** ** No lost error: the first exception that starts to propagate is the outcome; a normal
@@ -266,6 +279,11 @@ Section Seq.
         apply faithful_emit_site. apply faithful_pbind; [apply Hrun|]. intros r.
         apply faithful_pbind; [apply faithful_conj | intros _; apply faithful_ret].
     Qed.
+    Lemma faithful_call_new o cd : faithful (call_new run o cd).
+    Proof.
+      unfold call_new. apply faithful_emit_site. apply faithful_pbind; [apply Hrun|]. intros r.
+      apply faithful_pbind; [apply faithful_conj | intros _; apply faithful_ret].
+    Qed.
   End Lists.
 
   Theorem exec_faithful P fuel : forall t, faithful (exec P fuel t).
@@ -275,10 +293,11 @@ Section Seq.
     - cbn [exec]. unfold dispatch.
       assert (forall sc, faithful (run_script (exec P fuel) sc)) as Hrun.
       { intros sc. apply faithful_actions. exact IH. }
-      destruct t as [f | o m | o].
+      destruct t as [f | o m | o | o].
       + destruct (get_fn P f); [apply faithful_call_fn; exact Hrun | apply faithful_raise].
       + destruct (class_of P o) as [cd|]; [|apply faithful_raise].
         destruct (nth_error (cl_meths cd) m); [apply faithful_call_meth; exact Hrun | apply faithful_raise].
       + destruct (class_of P o) as [cd|]; [apply faithful_call_init; exact Hrun | apply faithful_raise].
+      + destruct (class_of P o) as [cd|]; [apply faithful_call_new; exact Hrun | apply faithful_raise].
   Qed.
 End Seq.
